@@ -155,7 +155,9 @@ fn shape_facts(shape: &Value) -> Result<Value> {
 		let mut attrs = attr_facts("method", &kinds.iter().filter(|k| *k != "Code").cloned().collect::<Vec<_>>(), &[])?;
 		if kinds.iter().any(|k| k == "Code") {
 			let nested = attr_facts("code", &names(&m["code"])?, &[])?;
-			attrs["Code"] = cfkit::samples::code(0, 1, vec![cfkit::samples::op("return")], vec![], nested);
+			// the shape may ask for an exception range that ends where the code ends (its exclusive end is the last label)
+			let exceptions = if m["excend"].as_bool().unwrap_or(false) { vec![json!({"start": 0, "end": 1, "handler": 0})] } else { vec![] };
+			attrs["Code"] = cfkit::samples::code(1, 1, vec![cfkit::samples::op("return")], exceptions, nested);
 		}
 		methods.push(cfkit::samples::member(if attrs.get("Code").is_some() { 0x1 } else { 0x401 }, &format!("m{}", i + 1), "()V", attrs));
 	}
